@@ -108,6 +108,8 @@ def _run(case, scheduler, built):
 
     pairs = [worker(tid) for tid in range(len(case["threads"]))]
     digest = scheduler.run([p[0] for p in pairs], first=case.get("first", 0))
+    if scheduler.deadlock:
+        return None, digest
     for _, finish in pairs:
         finish()
     return outcomes, digest
@@ -330,6 +332,14 @@ def exec_case(case, log, stats):
     )
     outcomes, digest = _run(case, sch, built)
     log.add("schedule", digest, sch.step, sch.switches)
+    if sch.deadlock:
+        return {
+            "invariant": "deadlock",
+            "op_index": None,
+            "detail": {"steps": sch.step, "preemptions": sch.switches, "lock_yields": sch.lock_yields},
+        }
+    if sch.lock_yields:
+        stats.inc("lock_contention_yields", sch.lock_yields)
     stats.inc("runs")
     stats.inc("steps", sch.step)
     stats.inc("preemptions", sch.switches)
